@@ -97,21 +97,26 @@ package xpath
 //@   trusted        // a method of the client's navigator: assumed not to touch engine state
 //@   modifies nothing
 //@   ensures-assumed[deterministic] result == nav_nsurl(pos(self))
+// strings.Builder behind the stringBuilder interface: its content is the ghost string buf(b).
 //@ iface stringBuilder.Grow(n)
 //@   trusted
 //@   modifies nothing
 //@ iface stringBuilder.WriteRune(r) result0, result1
 //@   trusted
 //@   modifies nothing
+//@   ghost buf(self) = old(buf(self)) + runestr(r)
 //@ iface stringBuilder.WriteString(s) result0, result1
 //@   trusted
 //@   modifies nothing
+//@   ghost buf(self) = old(buf(self)) + s
 //@ iface stringBuilder.String() result
 //@   trusted
 //@   modifies nothing
+//@   ensures-assumed[content] result == buf(self)
 //@ iface stringBuilder.Reset()
 //@   trusted
 //@   modifies nothing
+//@   ghost buf(self) = ""
 
 //@ iface iterator.Current() result
 //@   modifies nothing
